@@ -41,8 +41,6 @@ impl Xvec {
 }
 #[verifier::external_body] pub struct Xmap { _p: u8 }
 impl Clone for Xmap { #[verifier::external_body] fn clone(&self) -> (r: Self) ensures r == *self { unimplemented!() } }
-#[verifier::external_body] pub struct Xbitstr { _p: u8 }
-impl Clone for Xbitstr { #[verifier::external_body] fn clone(&self) -> (r: Self) ensures r == *self { unimplemented!() } }
 #[verifier::external_body] pub struct Xanyrc { _p: u8 }
 impl Clone for Xanyrc { #[verifier::external_body] fn clone(&self) -> (r: Self) ensures r == *self { unimplemented!() } }
 #[verifier::external_body] pub struct XfnPtr { _p: u8 }
